@@ -513,7 +513,7 @@ func gen(c *core.Ctx) error {
 			c.Count("server:oracle-only")
 		} else {
 			term := r.term()
-			c.AddCaseW(term, doc, 1+len(term)/2500)
+			c.AddCaseW(term, doc, 1+len(term)/1000)
 		}
 		c.OracleCheck()
 		c.Count("server:" + strings.SplitN(sc.Name, "-", 2)[0])
@@ -542,7 +542,7 @@ func gen(c *core.Ctx) error {
 			c.Count("client:oracle-only")
 		} else {
 			term := r.term()
-			c.AddCaseW(term, doc, 1+len(term)/2500)
+			c.AddCaseW(term, doc, 1+len(term)/1000)
 		}
 		c.OracleCheck()
 		c.Count("client:" + strings.SplitN(cc.Name, "-", 2)[0])
